@@ -211,8 +211,8 @@ func (f File) Validate() error {
 		}
 	}
 	for _, msg := range f.Messages {
-		for _, fd := range msg.Fields {
-			if err := typeDefined(fd.FieldType, allTypes); err != nil {
+		for _, idx := range sortedIndices(msg.Fields) {
+			if err := typeDefined(msg.Fields[idx].FieldType, allTypes); err != nil {
 				return err
 			}
 		}
